@@ -16,11 +16,14 @@
   MHD_add_response_header / MHD_del_response_header / MHD_set_response_options), see
   `head101_is_reply_builder`, `upgrade_head_connection_tokens`, `head101_explicit`.
 
-  Partial: TLS forwarding (process_urh, GnuTLS) is outside this model; only the cleanup
-  accounting of the handle (`clean_ready`) is modelled here.
+  TLS-upgraded connections: the forwarding layer (`process_urh`, the "finished forwarding" test,
+  `clean_ready`, the close action, shutdown) is modelled in `Mhd.Model.UpgTls` as far as it is
+  logic — buffers, fill levels, stop flags, readiness bits — with the record layer (GnuTLS) and the
+  socketpair as environment: section (5), theorems `tls_*`.
 -/
 import Mhd.Proofs.UpgWire
 import Mhd.Proofs.UpgHead101
+import Mhd.Proofs.UpgTlsClose
 
 namespace Mhd.C20
 open Mhd.Upg
@@ -621,5 +624,141 @@ example : head101 Ex.base Ex.upResp = ([72, 84, 84, 80, 47, 49, 46, 49, 32, 49, 
 example : let x : Conn := { loc := .active, st := .fullReq, req := some ⟨3, .v11, false, false⟩ }
     let cfg : Cfg := { Ex.base with resp := fun rid => if rid = 1 then { Ex.upResp with code := 200 } else Ex.okResp }
     (queueResponse cfg false x 1).2 = false ∧ queueCheck cfg false x (cfg.resp 0) = none := by decide
+
+end Mhd.C20
+
+namespace Mhd.C20
+open Mhd.UpgTls
+
+/-! ## (5) TLS-upgraded connections: the forwarding layer (`process_urh`) -/
+
+
+/-- a forwarding handle after any history: client writes, application writes, visits by the event loop
+    with ANY readiness pattern and ANY outcome of the four I/O calls (short counts, EAGAIN, EINTR, end of
+    stream, hard errors), the close action, resume scans, cleanup, shutdown visits — in any order -/
+def tlsReach (cap ssizeMax sendMax : Nat) (tpc : Bool) (ops : List Mhd.UpgTls.Op) : St :=
+  Mhd.UpgTls.run (St.init cap ssizeMax sendMax tpc) ops
+
+/-- **Both directions are prefix-preserving FIFOs, for every interleaving.**  At any time, what the client
+    sent is exactly: what was forwarded to the application, then what was discarded, then the forwarding
+    buffer, then what is still unread — in this order; and symmetrically for the application's bytes.
+    Hence the forwarded bytes are a prefix of the sent ones: no duplication, no reordering, and the only
+    loss is `dropIn` / `dropOut`, which are contiguous and (see `tls_no_loss_*`) empty while both sides are
+    open.  Once something was discarded that direction is stopped for good (`in/out_buffer_size = 0`). -/
+theorem tls_forwarding_fifo (cap ssizeMax sendMax : Nat) (tpc : Bool) (ops : List Mhd.UpgTls.Op) :
+    let s := tlsReach cap ssizeMax sendMax tpc ops
+    s.toApp ++ s.dropIn ++ s.inBuf ++ s.remoteIn = s.clientSent ∧
+    s.toClient ++ s.dropOut ++ s.outBuf ++ s.pairIn = s.appSent ∧
+    (s.dropIn = [] ∨ (s.inBuf = [] ∧ s.inSize = 0)) ∧ (s.dropOut = [] ∨ (s.outBuf = [] ∧ s.outSize = 0)) := by
+  have h := inv_run _ ops (inv_init cap ssizeMax sendMax tpc)
+  exact ⟨h.i.eq, h.o.eq, h.i.drop, h.o.drop⟩
+
+/-- **The forwarding buffers are never overrun**: every receive writes inside `[used, size)`, fill levels
+    and sizes never exceed the allocation, for every history -/
+theorem tls_buffers_never_overrun (cap ssizeMax sendMax : Nat) (tpc : Bool) (ops : List Mhd.UpgTls.Op) :
+    let s := tlsReach cap ssizeMax sendMax tpc ops
+    s.fault = none ∧ s.inBuf.length ≤ s.cap ∧ s.outBuf.length ≤ s.cap ∧ s.inSize ≤ s.cap ∧ s.outSize ≤ s.cap := by
+  have h := inv_run _ ops (inv_init cap ssizeMax sendMax tpc)
+  exact ⟨h.nf, h.i.len, h.o.len, h.i.size, h.o.size⟩
+
+/-- **No loss client → application** as long as the application has not issued the close action, the
+    daemon is not shutting down and no write to the application's socket failed hard -/
+theorem tls_no_loss_client_to_app (cap ssizeMax sendMax : Nat) (tpc : Bool) (ops : List Mhd.UpgTls.Op)
+    (h : ∀ op ∈ ops, op.noInDrop) :
+    let s := tlsReach cap ssizeMax sendMax tpc ops
+    s.toApp ++ s.inBuf ++ s.remoteIn = s.clientSent := by
+  have hi := (inv_run _ ops (inv_init cap ssizeMax sendMax tpc)).i.eq
+  have hd := (run_noInDrop ops (St.init cap ssizeMax sendMax tpc) rfl rfl h).1
+  simp only [tlsReach]
+  rw [hd] at hi; simpa using hi
+
+/-- **No loss application → client** as long as the daemon is not shutting down and no TLS write failed
+    hard — also across the application's close action: what it wrote before closing is still delivered -/
+theorem tls_no_loss_app_to_client (cap ssizeMax sendMax : Nat) (tpc : Bool) (ops : List Mhd.UpgTls.Op)
+    (h : ∀ op ∈ ops, op.noOutDrop) :
+    let s := tlsReach cap ssizeMax sendMax tpc ops
+    s.toClient ++ s.outBuf ++ s.pairIn = s.appSent := by
+  have hi := (inv_run _ ops (inv_init cap ssizeMax sendMax tpc)).o.eq
+  have hd := run_noOutDrop ops (St.init cap ssizeMax sendMax tpc) rfl h
+  simp only [tlsReach]
+  rw [hd] at hi; simpa using hi
+
+/-- **Released exactly once**: the completion notification / move to the cleanup list happens at most once
+    in every history, and has happened exactly when the connection has left the suspended list;
+    `clean_ready` is only ever set with both directions stopped and empty and the socketpair shut down -/
+theorem tls_released_exactly_once (cap ssizeMax sendMax : Nat) (tpc : Bool) (ops : List Mhd.UpgTls.Op) :
+    let s := tlsReach cap ssizeMax sendMax tpc ops
+    s.released ≤ 1 ∧ (s.released = 1 ↔ s.loc ≠ .suspended) ∧
+    (s.cleanReady = true → finished s = true ∧ s.pairShut = true) := by
+  have h := inv_run _ ops (inv_init cap ssizeMax sendMax tpc)
+  simp only [tlsReach]
+  refine ⟨?_, ?_, h.clean⟩
+  · rw [h.rel]; split <;> simp
+  · rw [h.rel]; split <;> simp_all
+
+/-- **The application's close is propagated and completes** (one-step form, any reachable or unreachable
+    state): after the close action, with nothing more in flight from the application, the next visit stops
+    both directions, shuts down the socketpair, sets `clean_ready`; the following resume scan releases the
+    connection with exactly one more completion -/
+theorem tls_app_close_completes (lv : Bool) (rdy : Celi × Celi) (e : Env) (s : St) (hl : s.loc = .suspended) (hc : s.cleanReady = false)
+    (hw : s.wasClosed = true) (hp : s.pairIn = []) (ho : s.outBuf = []) (hi : e.pairRecv ≠ .intr) :
+    finished (visit false lv rdy e s) = true ∧ (visit false lv rdy e s).cleanReady = true ∧ (visit false lv rdy e s).pairShut = true ∧
+    (resumeScan (visit false lv rdy e s)).loc = .cleanup ∧ (resumeScan (visit false lv rdy e s)).released = s.released + 1 :=
+  app_close_visit_finishes lv rdy e s hl hc hw hp ho hi
+
+/-- **MHD_stop_daemon completes the forwarding in one visit**, whatever is buffered and whatever the I/O
+    calls return -/
+theorem tls_stop_completes (lv : Bool) (rdy : Celi × Celi) (e : Env) (s : St) (hl : s.loc = .suspended) (hc : s.cleanReady = false) :
+    finished (visit true lv rdy e s) = true ∧ (visit true lv rdy e s).cleanReady = true ∧ (visit true lv rdy e s).pairShut = true ∧
+    (visit true lv rdy e s).resuming = true ∧ (visit true lv rdy e s).wasClosed = true :=
+  stop_visit_finishes lv rdy e s hl hc
+
+/-- **The client's close is propagated**: end of stream or a hard error from the record layer stops reading
+    from the client for good (no further `gnutls_record_recv`), what was received before stays in the
+    buffer for the application; the application sees end of stream when the forwarding is finished
+    (`tls_released_exactly_once`: `clean_ready → pairShut`) -/
+theorem tls_client_close_stops_reading (e : Env) (s : St) (hr : (s.remote.rd || s.remote.err || s.tlsReadReady) = true)
+    (hroom : s.inBuf.length < s.inSize) (he : e.tlsRecv = .eof ∨ e.tlsRecv = .fatal) :
+    (stageTlsRecv e s).inSize = 0 ∧ (stageTlsRecv e s).inBuf = s.inBuf ∧
+    ∀ e', stageTlsRecv e' (stageTlsRecv e s) = stageTlsRecv e s :=
+  remote_close_stops_reading e s hr hroom he
+
+namespace ExTls
+def rdyAll : Celi × Celi := (⟨true, true, false⟩, ⟨true, true, false⟩)
+def env (a b c d : IoRes) : Env := { tlsRecv := a, pairRecv := b, tlsSend := c, pairSend := d }
+/-- 8-byte buffers; the client sends 11 bytes, the application 3; short reads and writes, an EAGAIN, an EINTR;
+    then the application writes 2 more bytes and closes; everything is flushed; resume scan; cleanup -/
+def ops : List Mhd.UpgTls.Op :=
+  [.clientSend [1, 2, 3, 4, 5, 6, 7, 8, 9, 10, 11], .appSend [101, 102, 103],
+   .visit true rdyAll (env (.ok 5) (.ok 2) (.ok 1) (.ok 3)),
+   .visit false rdyAll (env (.ok 100) .intr .again (.ok 1)),
+   .visit true rdyAll (env (.ok 100) (.ok 100) (.ok 100) (.ok 100)),
+   .visit true rdyAll (env .again .again .again (.ok 100)),
+   .appSend [104, 105], .appClose,
+   .visit true rdyAll (env (.ok 100) (.ok 100) (.ok 100) .again),
+   .visit true rdyAll (env .again .again .again .again),
+   .resumeScan, .cleanup]
+end ExTls
+
+/-- the example history: all 11 client bytes reach the application in order before it closes, all 5
+    application bytes reach the client (the last two after the close action), nothing is discarded,
+    released once; its prefix before the close satisfies the hypotheses of both no-loss theorems -/
+example : let s := tlsReach 8 1000 1000 false ExTls.ops
+    s.toApp = [1, 2, 3, 4, 5, 6, 7, 8, 9, 10, 11] ∧ s.toClient = [101, 102, 103, 104, 105] ∧ s.dropIn = [] ∧ s.dropOut = [] ∧
+    s.released = 1 ∧ s.loc = .freed ∧ s.pairShut = true ∧ s.fault = none := by decide
+
+example : (∀ op ∈ ExTls.ops.take 7, op.noInDrop) ∧ (∀ op ∈ ExTls.ops, op.noOutDrop) := by
+  constructor
+  · intro op h
+    simp only [ExTls.ops, List.take, List.mem_cons, List.not_mem_nil, or_false] at h
+    rcases h with rfl | rfl | rfl | rfl | rfl | rfl | rfl <;> simp [Mhd.UpgTls.Op.noInDrop, ExTls.env]
+  · intro op h
+    simp only [ExTls.ops, List.mem_cons, List.not_mem_nil, or_false] at h
+    rcases h with rfl | rfl | rfl | rfl | rfl | rfl | rfl | rfl | rfl | rfl | rfl | rfl <;> simp [Mhd.UpgTls.Op.noOutDrop, ExTls.env]
+
+/-- hypotheses of the one-step theorems are satisfiable: the state before the ninth operation of the example
+    (closed by the application, nothing in flight, nothing buffered for the client) -/
+example : let s := tlsReach 8 1000 1000 false (ExTls.ops.take 9)
+    s.loc = .suspended ∧ s.cleanReady = false ∧ s.wasClosed = true ∧ s.pairIn = [] ∧ s.outBuf = [] := by decide
 
 end Mhd.C20
